@@ -19,21 +19,8 @@ func kvOldHeadReadOnly(r *core.Run) {
 	}
 	f := fn.SSA
 	ro := constValue(r.P, tablePkg, "ReadOnlyState")
-	isSetRO := func(in ssa.Instruction) bool {
-		c, ok := in.(*ssa.Call)
-		if !ok {
-			return false
-		}
-		o := core.CalleeObj(c)
-		if o == nil || core.QualName(o) != tablePkg+".(*Table).SetState" || len(c.Call.Args) != 2 {
-			return false
-		}
-		k, ok := c.Call.Args[1].(*ssa.Const)
-		if !ok || k.Value == nil || k.Int64() != ro {
-			return false
-		}
-		// receiver: k.tables[len(k.tables)-1]
-		recv := c.Call.Args[0]
+	// isHead: k.tables[len(k.tables)-1]
+	isHead := func(recv ssa.Value) bool {
 		u, ok := recv.(*ssa.UnOp)
 		if !ok {
 			return false
@@ -48,6 +35,54 @@ func kvOldHeadReadOnly(r *core.Run) {
 		}
 		kk, ok := sub.Y.(*ssa.Const)
 		return ok && kk.Value != nil && kk.Int64() == 1 && lenArg(sub.X) != nil
+	}
+	isSetRO := func(in ssa.Instruction) bool {
+		c, ok := in.(*ssa.Call)
+		if !ok {
+			return false
+		}
+		o := core.CalleeObj(c)
+		if o == nil || core.QualName(o) != tablePkg+".(*Table).SetState" || len(c.Call.Args) != 2 {
+			return false
+		}
+		k, ok := c.Call.Args[1].(*ssa.Const)
+		if !ok || k.Value == nil || k.Int64() != ro {
+			return false
+		}
+		return isHead(c.Call.Args[0])
+	}
+	// headNotWritable: the edge from -> to is taken only when the head's state is known to
+	// differ from ReadWriteState (the head needs no switching then)
+	rw := constValue(r.P, tablePkg, "ReadWriteState")
+	headNotWritable := func(from, to *ssa.BasicBlock) bool {
+		if len(from.Instrs) == 0 || len(from.Succs) != 2 {
+			return false
+		}
+		ifi, ok := from.Instrs[len(from.Instrs)-1].(*ssa.If)
+		if !ok {
+			return false
+		}
+		bin, ok := ifi.Cond.(*ssa.BinOp)
+		if !ok || (bin.Op != token.EQL && bin.Op != token.NEQ) {
+			return false
+		}
+		call, k := bin.X, bin.Y
+		if _, isK := call.(*ssa.Const); isK {
+			call, k = k, call
+		}
+		kc, isK := k.(*ssa.Const)
+		c, isC := call.(*ssa.Call)
+		if !isK || !isC || kc.Value == nil || kc.Int64() != rw {
+			return false
+		}
+		o := core.CalleeObj(c)
+		if o == nil || core.QualName(o) != tablePkg+".(*Table).State" || len(c.Call.Args) != 1 || !isHead(c.Call.Args[0]) {
+			return false
+		}
+		if bin.Op == token.EQL {
+			return to == from.Succs[1]
+		}
+		return to == from.Succs[0]
 	}
 	// find the branch len(k.tables) != 0
 	var gate *ssa.If
@@ -83,14 +118,13 @@ func kvOldHeadReadOnly(r *core.Run) {
 		return
 	}
 	start := gate.Block().Succs[gateIdx]
-	bad := false
-	if len(start.Instrs) > 0 && !isSetRO(start.Instrs[0]) {
-		if ret := core.ReachesReturnFrom(start.Instrs[0], isSetRO, func(*ssa.Return) bool { return true }); ret != nil {
-			bad = true
-		}
-	}
+	hit := pathSearch(start, nil, isSetRO, func(b *ssa.BasicBlock) bool {
+		_, isRet := b.Instrs[len(b.Instrs)-1].(*ssa.Return)
+		return isRet
+	}, func(from, to *ssa.BasicBlock) bool { return !headNotWritable(from, to) })
+	bad := hit != nil
 	r.Check(!bad, "old-head-read-only", name, site(r, instrPos(gate)),
-		"with a non-empty store every path through makeTable first switches the current head to ReadOnlyState",
+		"with a non-empty store every path through makeTable first switches the current head to ReadOnlyState, unless its state is already known not to be ReadWriteState",
 		"makeTable can install a new head (e.g. by reusing a recycled table) without switching the previous head to ReadOnlyState: the old head stays writable, compaction skips it forever, and every such roll-over leaks one table of garbage")
 }
 
@@ -146,6 +180,102 @@ func kvPutGrowsStore(r *core.Run) {
 		r.Check(ok, rule, name, site(r, f.Pos()),
 			"a full head table leads to makeTable and another attempt",
 			"when the head table is full the insert does not open a new table and try again: the fragment stops accepting entries once its first table is full — for PutRaw that is every backup copy, while the primary keeps acknowledging the writes")
+	}
+	r.Floor(rule, cnt, 2)
+}
+
+// kvIsHead: v is k.tables[len(k.tables)-1].
+func kvIsHead(v ssa.Value) bool {
+	u, ok := v.(*ssa.UnOp)
+	if !ok {
+		return false
+	}
+	ia, ok := u.X.(*ssa.IndexAddr)
+	if !ok || !isTablesLoad(ia.X) {
+		return false
+	}
+	sub, ok := ia.Index.(*ssa.BinOp)
+	if !ok || sub.Op != token.SUB {
+		return false
+	}
+	kk, ok := sub.Y.(*ssa.Const)
+	return ok && kk.Value != nil && kk.Int64() == 1 && lenArg(sub.X) != nil
+}
+
+// kvInsertIntoWritableHead: a transfer drops tables one by one and leaves recycled
+// tables in place, so the last table of a store that was moved away can be a recycled one.
+// A recycled table has no coefficient (scans go by coefficient) and is skipped by Export:
+// entries written into it are readable by key but are never listed and never migrate —
+// they are lost with the next ownership change.
+//
+// Rule: in Put and PutRaw the insert into k.tables[len-1] is reached only after makeTable
+// ran or after the head's state was found to be ReadWriteState.
+func kvInsertIntoWritableHead(r *core.Run) {
+	const rule = "insert-into-writable-head"
+	rw := constValue(r.P, tablePkg, "ReadWriteState")
+	cnt := 0
+	for _, name := range []string{kvPkg + ".(*KVStore).Put", kvPkg + ".(*KVStore).PutRaw"} {
+		fn := r.Need(rule, name)
+		if fn == nil {
+			continue
+		}
+		f := fn.SSA
+		isInsert := func(in ssa.Instruction) bool {
+			c, ok := in.(*ssa.Call)
+			if !ok || !callTo(tablePkg+".(*Table).Put", tablePkg+".(*Table).PutRaw")(in) {
+				return false
+			}
+			return len(c.Call.Args) > 0 && kvIsHead(c.Call.Args[0])
+		}
+		if len(findInstrs(f, false, isInsert)) == 0 {
+			r.Unknown(rule, name, site(r, f.Pos()), "no insert into k.tables[len(k.tables)-1] found")
+			continue
+		}
+		headWritable := func(from, to *ssa.BasicBlock) bool {
+			if len(from.Instrs) == 0 || len(from.Succs) != 2 {
+				return false
+			}
+			ifi, ok := from.Instrs[len(from.Instrs)-1].(*ssa.If)
+			if !ok {
+				return false
+			}
+			bin, ok := ifi.Cond.(*ssa.BinOp)
+			if !ok || (bin.Op != token.EQL && bin.Op != token.NEQ) {
+				return false
+			}
+			call, k := bin.X, bin.Y
+			if _, isK := call.(*ssa.Const); isK {
+				call, k = k, call
+			}
+			kc, isK := k.(*ssa.Const)
+			c, isC := call.(*ssa.Call)
+			if !isK || !isC || kc.Value == nil || kc.Int64() != rw {
+				return false
+			}
+			o := core.CalleeObj(c)
+			if o == nil || core.QualName(o) != tablePkg+".(*Table).State" || len(c.Call.Args) != 1 || !kvIsHead(c.Call.Args[0]) {
+				return false
+			}
+			if bin.Op == token.EQL {
+				return to == from.Succs[0]
+			}
+			return to == from.Succs[1]
+		}
+		hit := pathSearch(f.Blocks[0], nil, callTo(kvPkg+".(*KVStore).makeTable"), func(b *ssa.BasicBlock) bool {
+			for _, in := range b.Instrs {
+				if callTo(kvPkg + ".(*KVStore).makeTable")(in) {
+					return false
+				}
+				if isInsert(in) {
+					return true
+				}
+			}
+			return false
+		}, func(from, to *ssa.BasicBlock) bool { return !headWritable(from, to) })
+		cnt++
+		r.Check(hit == nil, rule, name, site(r, f.Pos()),
+			"the insert into the last table is reached only through makeTable or after its state was found to be ReadWriteState",
+			"the insert goes into whatever table is last without looking at its state: after a transfer dropped the other tables that can be a recycled table, which is not registered for scans and is skipped by Export — the entries are never listed and never migrate (lost with the next ownership change)"+blockAt(r, hit))
 	}
 	r.Floor(rule, cnt, 2)
 }
